@@ -305,6 +305,20 @@ def link_closure(ctx, cfg, cb, info, role, rule):
                     else:
                         src_ok = ("field", obase, (o["array"],)) in slice_bases
                     det += "; position field '%s' of owner %s; slots iterate that owner's storage: %s" % (o["names"][opath[0]], adt.split("::")[-1], src_ok)
+                    # which end of the claimed range moves, and which way: a traversal from the front disowns slots by raising the low position
+                    # (+1 per slot), one from the back by lowering the high position (-1); anything else leaves moved-out slots claimed and
+                    # live ones unclaimed
+                    pname = o["names"][opath[0]]
+                    back = drv.fn.split("::")[-1] in ("rfold", "try_rfold", "rfind", "rposition", "next_back", "nth_back")
+                    for x in resolved_args(ap, drv):
+                        if find_in(x, lambda t: isinstance(t, tuple) and len(t) >= 3 and t[0] == "V" and t[1] == "iter" and t[2] == "rev"):
+                            back = not back
+                    ds = info.get("deltas", {}).get(k, set())
+                    if role == "consumer" and ds and (pname in LOW_POS or pname in HIGH_POS):
+                        want = -1 if back else 1
+                        fits = ds == {want} and ((pname in HIGH_POS) if back else (pname in LOW_POS))
+                        det += "; travelling %s, position '%s' moves by %s: %s" % ("backward" if back else "forward", pname, sorted(ds), "fits" if fits else "DOES NOT FIT (the slots moved out stay claimed at the other end)")
+                        src_ok = src_ok and fits
                     if obase[0] == "local":
                         dropped, has_unwind = unwind_drops(ap, drv)
                         live = obase[1] in dropped
